@@ -155,7 +155,9 @@ func solve(query string, dir string, name string, timeoutS int, agree bool, pref
 func solveCover(query, dir, name string) solveResult {
 	file := filepath.Join(dir, sanitizeFile(name)+".smt2")
 	os.WriteFile(file, []byte(query), 0o644)
-	defer os.Remove(file)
+	if os.Getenv("GOVC_KEEP") == "" {
+		defer os.Remove(file)
+	}
 	res := solveResult{status: "unknown", all: map[string]string{}}
 	for _, sp := range solvers {
 		if sp.name != "z3-new" {
